@@ -544,6 +544,24 @@ fn o_binary<T: Sc>(c: &Case, v: &mut Verdict) {
         v.chk(guard(|| ma == m2) == Ok(false), "equality", || format!("== is true although entry ({},{}) differs", sr, sc));
         v.chk(guard(|| ma.approximate_eq(&m2, T::of(0.125))) == Ok(false), "equality", || format!("approximate_eq(0.125) is true although entry ({},{}) differs by more", sr, sc));
         v.chk(guard(|| ma.approximate_eq(&m2, T::of(1e30))) == Ok(true), "equality", || "approximate_eq(1e30) is false".to_string());
+        // the same storage under a different shape must be unequal / rejected, never read through
+        if n1 * p1 > 1 {
+            let st: Vec<T> = vec_t(&colmajor(&a));
+            let mut alts = vec![(1, n1 * p1), (n1 * p1, 1)];
+            if n1 != p1 { alts.push((p1, n1)); }
+            for (k, l) in alts {
+                if (k, l) == (n1, p1) { continue; }
+                let alt = DenseMatrix::<T>::new(k, l, st.clone());
+                let what = format!("{}x{} against the same storage shaped {}x{}", n1, p1, k, l);
+                v.chk(guard(|| ma == alt) == Ok(false), "equality", || format!("== is not false: {}", what));
+                v.chk(guard(|| ma.approximate_eq(&alt, T::of(1e30))) == Ok(false), "equality", || format!("approximate_eq is not false: {}", what));
+                v.must_panic("shape_contract", &format!("add: {}", what), guard(|| ma.add(&alt)));
+                v.must_panic("shape_contract", &format!("sub_mut: {}", what), guard(|| { let mut w = ma.clone(); w.sub_mut(&alt); w }));
+                v.must_panic("shape_contract", &format!("mul: {}", what), guard(|| ma.mul(&alt)));
+                v.must_panic("shape_contract", &format!("div_mut: {}", what), guard(|| { let mut w = ma.clone(); w.div_mut(&alt); w }));
+                v.must_panic("shape_contract", &format!("copy_from: {}", what), guard(|| { let mut w = ma.clone(); w.copy_from(&alt); w }));
+            }
+        }
         // max_diff on equal shapes
         let d = (T::of(a2[sr][sc]) - T::of(a[sr][sc])).abs().f();
         v.num_close("reduction", "max_diff", guard(|| ma.max_diff(&m2).f()), d, 0.0);
